@@ -541,6 +541,23 @@ class CFG:
 
     def with_(self, st, items, nxt, frames, loop, handler_types, mark):
         item = items[0]
+        ce = item.context_expr
+        if isinstance(ce, ast.Call) and (A.dotted(ce.func) or "").split(".")[-1] == "suppress" and not ce.keywords and \
+                item.optional_vars is None and X.get(ast.Tuple(elts=list(ce.args), ctx=ast.Load())) is not None:
+            # contextlib.suppress(T...): the body runs under `except (T...): pass`
+            h = ast.ExceptHandler(type=ast.Tuple(elts=list(ce.args), ctx=ast.Load()) if len(ce.args) != 1 else ce.args[0],
+                                  name=None, body=[ast.copy_location(ast.Pass(), st)])
+            ast.copy_location(h, st)
+            h._parent = st
+            h.body[0]._parent = h
+            classes = X.get(h.type)
+            hn = self.new("except", h)
+            hn.cont = mark
+            self.edge(hn, self.block(h.body, nxt, frames, loop, (classes, hn), mark), "next")
+            inner = frames + [_Frame([(classes, hn)], None)]
+            if len(items) > 1:
+                return self.with_(st, items[1:], nxt, inner, loop, handler_types, mark)
+            return self.block(st.body, nxt, inner, loop, handler_types, mark)
         fin = _Finally(self, None, item.context_expr, frames, loop, handler_types)
         self._finallies.append(fin)
         after = fin.entry("next", lambda: nxt)
